@@ -9,9 +9,22 @@ from mc.engine import Harness, Result, V
 from mc.heapfp import try_fingerprint
 from mc.world import reset_globals
 
-PARAMS = ['l', 's', 'n', 'k', 'g', 'x', 'lr']
+PARAMS = ['l', 's', 'n', 'k', 'g', 'x', 'lr', 'ro']
 INSTANTIATED = ['l', 'x', 'lr']
 ATTRS = [('n', 'bounds'), ('g', 'bounds'), ('n', 'doc'), ('sel', '_objects'), ('sel0', '_objects'), ('n', 'constant'), ('l', 'bounds')]
+
+
+class Gen:
+    """a stateful number generator (a Dynamic value)"""
+    def __init__(self, start):
+        self.n = start
+
+    def __call__(self):
+        self.n += 1
+        return self.n
+
+    def __verif_fp__(self):
+        return self.n
 
 
 class Model:
@@ -62,17 +75,26 @@ class C12(Harness):
     def depth(self, tier, cfg):
         return 3 if tier == 'quick' else 4
 
-    def fresh(self):
+    def configs(self, tier):
+        return [{}, {'falsy': True}]
+
+    def fresh(self, cfg=None):
         import param
+        cfg = cfg or {}
         reset_globals()
         m = Model()
-        d = {'l': m.new([1]), 's': m.new([10]), 'n': 1, 'k': m.new([5]), 'g': 2, 'x': m.new([4]), 'lr': m.new([3])}
+        d = {'l': m.new([1]), 's': m.new([10]), 'n': 1, 'k': m.new([5]), 'g': 2, 'x': m.new([4]), 'lr': m.new([3]), 'ro': m.new([8])}
         real = {t: list(c) for t, c in m.contents.items()}
-        M = type('M', (param.Parameterized,), {
+        ns = {
             'l': param.List(default=real['t0']), 's': param.Parameter(default=real['t1']), 'n': param.Number(default=1, bounds=(0, 10), doc='d0'),
             'k': param.Parameter(default=real['t2'], constant=True), 'g': param.Number(default=2, bounds=(0, 10), per_instance=False),
             'sel': param.Selector(objects=['a', 'b']), 'sel0': param.Selector(),
-            'x': param.Parameter(default=real['t3'], instantiate=True), 'lr': param.List(default=real['t4'], allow_refs=True)})
+            'x': param.Parameter(default=real['t3'], instantiate=True), 'lr': param.List(default=real['t4'], allow_refs=True),
+            'ro': param.Parameter(default=real['t5'], readonly=True),
+            'dg': param.Number(default=Gen(0))}
+        if cfg.get('falsy'):
+            ns['__len__'] = lambda self: 0          # an (empty) container-like Parameterized is falsy
+        M = type('M', (param.Parameterized,), ns)
         # Sub redeclares x with a more specific type that does not instantiate by default: instantiate=True must be inherited
         Sub = type('Sub', (M,), {'x': param.Selector(check_on_set=False)})
         m.cls['M'] = dict(d)
@@ -82,14 +104,14 @@ class C12(Harness):
     def enabled(self, w, m):
         ops = []
         if len(m.inst) < 3:
-            ops += [['new', 'M', None], ['new', 'Sub', None], ['new', 'M', 'l'], ['new', 'Sub', 'skipref']]
+            ops += [['new', 'M', None], ['new', 'Sub', None], ['new', 'M', 'l'], ['new', 'Sub', 'skipref'], ['new', 'M', 'dg']]
         holders = list(range(len(m.inst)))
         for i in holders:
-            ops += [['iset', i, 'n', 5], ['iset', i, 's', 'new'], ['iset', i, 'l', 'new'], ['mut', i, 'l'], ['mut', i, 's'], ['mut', i, 'k'], ['mut', i, 'x'], ['mut', i, 'lr'], ['objmut0', i], ['iset', i, 'sel0', 'alpha'],
+            ops += [['iset', i, 'n', 5], ['iupdate', i, 'n', 4], ['iset', i, 's', 'new'], ['iset', i, 'l', 'new'], ['mut', i, 'l'], ['mut', i, 's'], ['mut', i, 'k'], ['mut', i, 'x'], ['mut', i, 'lr'], ['objmut0', i], ['iset', i, 'sel0', 'alpha'],
                     ['attr', i, 'n', 'bounds', [0, 5]], ['attr', i, 'g', 'bounds', [0, 6]], ['attr', i, 'n', 'doc', 'di'], ['objmut', i], ['touch', i, 'n']]
         for k in ('M', 'Sub'):
             ops += [['cset', k, 'n', 3 if k == 'M' else 4], ['cset', k, 's', 'new'], ['cset', k, 'l', 'new'], ['cset', k, 'k', 'new'],
-                    ['mut', k, 'l'], ['mut', k, 's'], ['attr', k, 'n', 'bounds', [0, 8] if k == 'M' else [0, 9]], ['objmut', k]]
+                    ['mut', k, 'l'], ['mut', k, 's'], ['attr', k, 'n', 'bounds', [0, 8] if k == 'M' else [0, 9]], ['objmut', k], ['cdefault', k, 'ro']]
         return ops
 
     # -------- observation
@@ -129,10 +151,24 @@ class C12(Harness):
                     id_to_tok.setdefault(id(got), t)
                 elif got != exp:
                     vs.append(V('value', '%s: %s.%s is %r, model says %r' % (ctx, name, p, got, exp), **key))
+        # dynamic generator default: every instance that did not get a plain number owns a copy of the class's generator
+        cg = w['M'].param.get_value_generator('dg')
+        seen_gens = {id(cg): 'class'}
+        for i, inst in enumerate(w['inst']):
+            g = inst.param.get_value_generator('dg')
+            if m.inst[i]['vals'].get('dg_plain'):
+                if g != 0.5:
+                    vs.append(V('value', '%s: instance %d was built with dg=0.5 but holds %r' % (ctx, i, g), holder='inst', param='dg', op=op[0]))
+                continue
+            if not isinstance(g, Gen):
+                vs.append(V('value', '%s: instance %d: dg generator is %r' % (ctx, i, g), holder='inst', param='dg', op=op[0]))
+            elif id(g) in seen_gens:
+                vs.append(V('unexpected-sharing', '%s: instance %d shares its number generator with %s' % (ctx, i, seen_gens[id(g)]), holder='inst', param='dg', op=op[0]))
+            seen_gens[id(g)] = 'instance %d' % i
         return vs
 
     def execute(self, cfg, history):
-        w, m = self.fresh()
+        w, m = self.fresh(cfg)
         param = w['param']
         vs = []
         hits = {}
@@ -155,6 +191,9 @@ class C12(Harness):
                         nl = m.new([7])
                         obj = cls(l=list(m.contents[nl[1]]))
                         vals['l'] = nl
+                    elif op[2] == 'dg':
+                        obj = cls(dg=0.5)              # a plain number for the dynamic parameter, through the constructor
+                        vals['dg_plain'] = True
                     elif op[2] == 'skipref':
                         def skipper(v):
                             raise param.Skip()
@@ -162,6 +201,7 @@ class C12(Harness):
                     else:
                         obj = cls()
                     vals['k'] = m.class_value(op[1], 'k')
+                    vals['ro'] = m.class_value(op[1], 'ro')
                     w['inst'].append(obj)
                     m.inst.append({'cls': op[1], 'vals': vals})
                 elif k == 'iset' and op[2] == 'sel0':
@@ -176,6 +216,17 @@ class C12(Harness):
                     else:
                         setattr(obj, op[2], op[3])
                         m.inst[op[1]]['vals'][op[2]] = op[3]
+                elif k == 'iupdate':
+                    w['inst'][op[1]].param.update(**{op[2]: op[3]})
+                    m.inst[op[1]]['vals'][op[2]] = op[3]
+                elif k == 'cdefault':
+                    t = m.new([40 + len(m.contents)])
+                    w[op[1]].param[op[2]].default = list(m.contents[t[1]])       # replaces the default of the (shared) class Parameter
+                    for kk in ('M', 'Sub'):
+                        if kk == op[1] or op[2] not in m.cls[kk] or kk == 'Sub':
+                            pass
+                    owner = op[1] if op[2] in m.cls[op[1]] else 'M'
+                    m.cls[owner][op[2]] = t
                 elif k == 'cset':
                     cls = w[op[1]]
                     if op[3] == 'new':
